@@ -1,6 +1,6 @@
 (* C09 — rename_all yields the names serde puts on the wire, for every identifier.
    Property theorems only; each is closed by `exact` of a lemma from Proofs/. *)
-From TsRs Require Import Base.Str Base.Outcome Model.Case Spec.SerdeCase Proofs.Case_proofs.
+From TsRs Require Import Base.Str Base.Outcome Model.Case Model.Rust Model.Gen Spec.Serde Spec.SerdeCase Proofs.Case_proofs Proofs.Case_gen_proofs.
 
 (* For every classification of upper-case characters, every position (struct field / struct-variant
    field = Field, enum variant = Variant), every one of the eight rules and EVERY identifier (any
@@ -27,6 +27,29 @@ Theorem C09_serde_never_err :
   forall (is_upper : char -> bool) p r id m, serde_rename is_upper p r id <> Err m.
 Proof. exact serde_rename_never_err. Qed.
 Print Assumptions C09_serde_never_err.
+
+(* In the derive model itself: the key printed for a struct field / struct-variant field and the
+   literal printed for a variant (explicit rename first, then rename_all / rename_all_fields, then
+   the identifier) are what serde_derive computes with its own routines, under any setting. *)
+Theorem C09_printed_field_key_is_serde_key :
+  forall (is_upper : char -> bool) (rename_all : option rule) (f : field) (n : str),
+    serde_field_key is_upper rename_all f = Ok n -> Gen.field_key rename_all f = n.
+Proof. exact gen_field_key_agrees. Qed.
+Print Assumptions C09_printed_field_key_is_serde_key.
+
+Theorem C09_printed_variant_name_is_serde_name :
+  forall (is_upper : char -> bool) (rename_all : option rule) (v : variant) (n : str),
+    serde_variant_name is_upper rename_all v = Ok n -> Gen.variant_name is_upper rename_all v = n.
+Proof. exact gen_variant_name_agrees. Qed.
+Print Assumptions C09_printed_variant_name_is_serde_name.
+
+(* the wire specification of C01/C02 (Spec/Serde.v) names keys and tags as serde_derive does *)
+Theorem C09_wire_spec_keys_are_serde_keys :
+  forall (is_upper : char -> bool) (rename_all : option rule),
+    (forall f n, serde_field_key is_upper rename_all f = Ok n -> Serde.field_key rename_all f = n) /\
+    (forall v n, serde_variant_name is_upper rename_all v = Ok n -> Serde.variant_name is_upper rename_all v = n).
+Proof. intros iu ra. split; [exact (spec_field_key_agrees iu ra) | exact (spec_variant_name_agrees iu ra)]. Qed.
+Print Assumptions C09_wire_spec_keys_are_serde_keys.
 
 (* Non-vacuity: serde does produce names, also for the unconventional identifiers of the
    property text, and the binding agrees on them. *)
